@@ -77,6 +77,9 @@ pub struct Knobs {
     /// an extra OUTPUT signal called `<name>_out` where <name> is a virtual signal, an output or an input (the suffix means
     /// something only next to a bidirectional signal)
     pub suffix_names: bool,
+    /// virtual signals of the shape `ZERO op OUTPUT` / `OUTPUT op ZERO` (an absorbing or neutral constant next to a device read:
+    /// evaluation is strict, so a Z / X there is an error whatever the other operand is)
+    pub absorbing_virtuals: bool,
 }
 
 impl Knobs {
@@ -108,6 +111,7 @@ impl Knobs {
             wide_signals: false,
             random_in_declares: false,
             suffix_names: false,
+            absorbing_virtuals: false,
         }
     }
     /// flat-ish programs dominated by data rows
@@ -471,6 +475,20 @@ impl Gen {
             let allow_random = std::mem::replace(&mut self.k.allow_random, keep);
             let e = self.expr_in(2, Some(plan));
             let e = if keep { Expr::bin("+", Expr::call("random", vec![Expr::num(self.rng.gen_range(2..50))]), e) } else { e };
+            let e = if self.k.absorbing_virtuals && !plan.readable.is_empty() && self.rng.gen_bool(0.6) {
+                let o = Expr::Id(plan.readable.choose(&mut self.rng).unwrap().clone());
+                let o2 = Expr::Id(plan.readable.choose(&mut self.rng).unwrap().clone());
+                let zero = match self.rng.gen_range(0..4) {
+                    0 => Expr::Num(0),
+                    1 => Expr::bin("-", o2.clone(), o2),
+                    2 => Expr::bin("&", o2, Expr::Num(0)),
+                    _ => Expr::un("!", Expr::Num(1)),
+                };
+                let op = *["&", "*", "|", "^", "+", "<<", ">>", "<", "="].choose(&mut self.rng).unwrap();
+                if self.rng.gen_bool(0.5) { Expr::bin(op, zero, o) } else { Expr::bin(op, o, zero) }
+            } else {
+                e
+            };
             self.k.p_device = saved;
             self.k.allow_random = allow_random;
             let d = Stmt::Declare { name, e };
